@@ -144,6 +144,7 @@ fn check(case: &Case) -> Outcome {
     let base = Instant::now() + Duration::from_secs(1000);
     let when = |e: &Option<u16>| e.map(|s| base + Duration::from_secs(s as u64));
     let (mut refused_put, mut refused_prov, mut inplace, mut replaced, mut local_update, mut removed_local, mut limit_keys) = (false, false, false, false, false, false, false);
+    let (mut replaced_at_max, mut local_update_expiry_only, mut local_update_addrs_only, mut new_key_at_max) = (false, false, false, false);
     for (step, op) in case.ops.iter().enumerate() {
         match op {
             Op::Put { key, len, fill, publisher, expires } => {
@@ -157,10 +158,18 @@ fn check(case: &Case) -> Outcome {
                     (Ok(()), false, false) => {
                         if !is_new {
                             replaced = true;
+                            if m.records.len() >= cfg.max_records {
+                                replaced_at_max = true;
+                            }
                         }
                         m.records.insert(k, rec);
                     }
-                    (Err(StoreError::ValueTooLarge), true, _) | (Err(StoreError::MaxRecords), _, true) => refused_put = true,
+                    (Err(StoreError::ValueTooLarge), true, _) | (Err(StoreError::MaxRecords), _, true) => {
+                        refused_put = true;
+                        if matches!(&res, Err(StoreError::MaxRecords)) {
+                            new_key_at_max = true;
+                        }
+                    }
                     _ => {
                         let sig = match (res.is_ok(), too_large, full) {
                             (true, true, _) => "C41:oversized-value-accepted",
@@ -202,6 +211,11 @@ fn check(case: &Case) -> Outcome {
                                 inplace = true;
                                 if pr.provider == local {
                                     local_update = true;
+                                    if slot.addresses == new.addresses {
+                                        local_update_expiry_only = true;
+                                    } else if slot.expires == new.expires {
+                                        local_update_addrs_only = true;
+                                    }
                                 }
                             }
                             *slot = new;
@@ -249,6 +263,10 @@ fn check(case: &Case) -> Outcome {
         (local_update, "local-provider-updated"),
         (removed_local, "local-provider-removed"),
         (limit_keys, "provided-keys-limit-hit"),
+        (replaced_at_max, "put-on-existing-key-with-max_records-stored"),
+        (new_key_at_max, "new-key-refused-at-max_records"),
+        (local_update_expiry_only, "local-provider-updated(expiry-only)"),
+        (local_update_addrs_only, "local-provider-updated(addresses-only)"),
     ] {
         if f {
             labels.push(l);
